@@ -212,7 +212,7 @@ KERNELS += [
 TOF_MASH = {"quick": [0, 1, 2, 3, 5, 7, 11, 13, 25, 27], "thorough": [0] + list(range(1, 65)) + [117, 351, 1023]}
 ALLPAIRS = {"quick": [(1, 0, 1), (1, 1, 2), (2, 3, 5), (4, 5, 2), (1, 2, 1), (2, 4, 2), (2, 3, 0)],
             "thorough": [(m, f, r) for m in (1, 2, 4, 8) for f in (0, 1, 2, 3, 4, 5, 6, 7, 9, 11, 13) for r in (0, 1, 2, 3, 7)]}
-SPANS = {"quick": [1, 2, 3, 5, 7, 11], "thorough": list(range(1, 16)) + [21, 27]}
+SPANS = {"quick": [1, 2, 3, 4, 7], "thorough": list(range(1, 16)) + [21, 27]}
 CHK = ["--signed-overflow-check", "--div-by-zero-check", "--bounds-check", "--pointer-check", "--conversion-check"]
 
 
@@ -276,7 +276,7 @@ def ring_sizes(tier):
     sc = _SIZES.get("scanner", [])
     if tier == "thorough":
         return sorted(set(sc) | set(range(2, 1025, 2)))
-    return sorted(set(sc) | set(range(2, 65, 2)) | {96, 128, 192, 256, 320, 384, 512, 576, 640, 768, 1000, 1024})
+    return sorted(set(sc) | set(range(2, 33, 2)) | {48, 64, 96, 128, 256, 1000, 1024})
 
 
 def jobs(tier, gen_dir):
@@ -338,7 +338,7 @@ def jobs(tier, gen_dir):
     # float block of initialise_ring_diff_arrays: ring spacing constant per job (every predefined scanner's value + a few others), ints symbolic
     spacings = _SIZES.get("spacing", []) + [1.0, 2.0, 3.0, 0.7, 12.5]
     if tier == "quick":
-        spacings = [4.85, 6.3, 3.0]
+        spacings = [4.85, 6.3]
     for sp in sorted(set(spacings)):
         out.append(Job("c01/lemma_rpr/spacing=%g" % sp, HARNESS, "h_lemma_rpr", kind="lemma", kernels=["K_rda_m_offset", "K_rda_ax_offset", "K_rda_rpr", "K_round_float"],
                        flags=CHK + ["--float-overflow-check", "--nan-check"], no_base_flags=True, defines={"C01_N": 16, "C01_SPACING": "%rf" % sp},
